@@ -1,6 +1,6 @@
 #!/bin/bash
-# usage: take_seed.sh Cxx  — copy /tmp/mut2/Cxx/_seed to /verif/seeded/Cxxb and confirm it in a scratch worktree
-p="$1"; src=/tmp/mut2/$p/_seed; dst=/verif/seeded/${p}b
+# usage: take_seed.sh Cxx [srcdir=/tmp/mut2] [suffix=b] — copy <srcdir>/Cxx/_seed to /verif/seeded/Cxx<suffix> and confirm it in a scratch worktree
+p="$1"; base="${2:-/tmp/mut2}"; suf="${3:-b}"; src=$base/$p/_seed; dst=/verif/seeded/${p}${suf}
 [ -f "$src/patch.diff" ] || { echo "no patch for $p"; exit 3; }
 mkdir -p "$dst"; cp "$src/patch.diff" "$src/demo.py" "$src/notes.md" "$dst/" 2>/dev/null
-/verif/tools/confirm_seeded.sh ${p}b "$dst"
+/verif/tools/confirm_seeded.sh ${p}${suf} "$dst"
